@@ -14,6 +14,8 @@
 (*             executing the same select-with-send statement                   *)
 (*   counter   n workers increment a Mutex-protected package variable          *)
 (*   nolock    NEGATIVE CONTROL: counter without the Mutex (must fail)         *)
+(*   earlyclose NEGATIVE CONTROL: pool whose results channel is closed without *)
+(*             waiting for the workers (send on closed channel, must fail)     *)
 (*   prodcons  n producers, k consumers (range and v, ok forms), close         *)
 (*   host      n host goroutines call the same script function F               *)
 (*   interps   n interpreters run the same program in parallel                 *)
@@ -23,11 +25,12 @@
 (* referenced by name rather than passed as CONSTANTS: TLC pre-evaluates a      *)
 (* constant definition once, but re-evaluates one that is substituted for a     *)
 (* CONSTANT in a cfg or INSTANCE at every use -- measured: 80 times per state.) *)
-EXTENDS Integers, Sequences, FiniteSets, TLC
+EXTENDS Integers, Sequences, FiniteSets, TLC, Pick
 
 CONSTANTS Families,   \* the families to instantiate
           NSet,       \* goroutine counts (stages for pipeline; producers AND consumers for prodcons)
           BSet,       \* buffer sizes
+          PCSum,      \* prodcons: bound on producers + consumers
           MaxIP
 
 C(x) == <<"c", x>>
@@ -42,7 +45,7 @@ Tag(id, j) == Add(Mul(V(id), C(10)), V(j))       \* id*10+j: a value that names 
 MainParams == <<"n", "k", "b", "m">>
 
 FnNames == {"main_pipeline", "main_pool", "main_drain", "main_privsel", "main_counter",
-            "main_nolock", "main_prodcons", "main_host", "main_interps", "stage", "gen", "worker",
+            "main_nolock", "main_earlyclose", "eclose", "main_prodcons", "main_host", "main_interps", "stage", "gen", "worker",
             "closer", "sworker", "feeder", "cworker", "nworker", "iworker", "imain", "producer",
             "pcloser", "consumer", "hostcall", "hgen"}
 
@@ -50,7 +53,7 @@ TParamsL == [f \in FnNames |->
   CASE f \in {"stage"}    -> <<"in", "out", "id">>
     [] f \in {"gen"}      -> <<"out", "m">>
     [] f \in {"worker"}   -> <<"id", "jobs", "res">>
-    [] f \in {"closer"}   -> <<"res">>
+    [] f \in {"closer", "eclose"} -> <<"res">>
     [] f \in {"sworker"}  -> <<"id", "in", "quit">>
     [] f \in {"feeder"}   -> <<"id", "in", "quit", "stop", "m">>
     [] f \in {"cworker", "nworker", "iworker", "imain", "hostcall"} -> <<"id", "m">>
@@ -63,17 +66,20 @@ TParamsL == [f \in FnNames |->
 TVars == {"n", "k", "b", "m", "i", "j", "v", "r", "s", "t", "ok", "acc", "sum", "tot", "id",
           "in", "out", "first", "prev", "next", "jobs", "res", "quit", "stop", "ch", "c"}
 
+\* the argument of `go` is copied when the statement executes: r changes afterwards
 CounterMain(w) == <<
   (* 1*) <<"wgadd", "W", V("n")>>,
   (* 2*) <<"set", "i", C(1)>>,
-  (* 3*) <<"jz", Le(V("i"), V("n")), 7>>,
-  (* 4*) <<"go", w, <<V("i"), V("m")>>>>,
-  (* 5*) Inc("i"),
-  (* 6*) <<"jmp", 3>>,
-  (* 7*) <<"wgwait", "W">>,
-  (* 8*) <<"load", "t", "cnt">>,
-  (* 9*) <<"print", <<V("t")>>>>,
-  (*10*) <<"ret">> >>
+  (* 3*) <<"jz", Le(V("i"), V("n")), 9>>,
+  (* 4*) <<"set", "r", V("m")>>,
+  (* 5*) <<"go", w, <<V("i"), V("r")>>>>,
+  (* 6*) <<"set", "r", C(0)>>,
+  (* 7*) Inc("i"),
+  (* 8*) <<"jmp", 3>>,
+  (* 9*) <<"wgwait", "W">>,
+  (*10*) <<"load", "t", "cnt">>,
+  (*11*) <<"print", <<V("t")>>>>,
+  (*12*) <<"ret">> >>
 
 PoolHead == <<
   (* 1*) <<"make", "jobs", V("b")>>,
@@ -131,6 +137,14 @@ TProgL == [f \in FnNames |->
       (* 3*) <<"jmp", 1>>,
       (* 4*) <<"wgdone", "W">>,
       (* 5*) <<"ret">> >> )
+  [] f = "main_earlyclose" -> (PoolHead \o <<
+      (*10*) <<"go", "eclose", <<V("res")>>>>,
+      (*11*) <<"range", "res", "r", 13>>,
+      (*12*) <<"jmp", 11>>,
+      (*13*) <<"ret">> >> )
+  [] f = "eclose" -> (<<
+      (* 1*) <<"close", "res">>,
+      (* 2*) <<"ret">> >> )
   [] f = "closer" -> (<<
       (* 1*) <<"wgwait", "W">>,
       (* 2*) <<"close", "res">>,
@@ -322,13 +336,18 @@ Many == NSet \ {1}
 InstancesOf(f) ==
     CASE f = "pipeline" -> {Mk(f, 0, k, b, 3) : k \in NSet, b \in BSet}
       [] f \in {"pool", "drain"} -> {Mk(f, n, 0, b, 3) : n \in NSet, b \in BSet}
-      [] f = "privsel"  -> {Mk(f, n, 0, b, 2) : n \in Many, b \in BSet \cap {0, 1}}     \* b: capacity of quit
+      \* privsel: b = capacity of quit; k = rendering form of the send case (0: the value is
+      \* computed before the select, 1: `case in <- id*10+j`), one pinned instance of form 1
+      [] f = "privsel"  -> {Mk(f, n, 0, b, 2) : n \in NSet, b \in BSet \cap {0, 1}} \cup {Mk(f, 1, 1, 0, 2)}
       [] f = "counter"  -> {Mk(f, n, k, 0, 2) : n \in Many, k \in {1, 2}}               \* k: rendering form
       [] f = "nolock"   -> {Mk(f, 2, 0, 0, 2)}
-      [] f = "prodcons" -> {Mk(f, n, k, b, 2) : n \in NSet, k \in NSet, b \in BSet}
+      [] f = "earlyclose" -> {Mk(f, 2, 0, 1, 2)}
+      [] f = "prodcons" -> {Mk(f, p[1], p[2], b, 2) : p \in {q \in NSet \X NSet : q[1] + q[2] <= PCSum}, b \in BSet}
       [] f = "host"     -> {Mk(f, n, 0, 0, 2) : n \in Many}
       [] f = "interps"  -> {Mk(f, n, 0, 0, 1) : n \in Many}
-TStarts == UNION {InstancesOf(f) : f \in Families}
+MkT(p) == Mk(p[1], p[2], p[3], p[4], p[5])
+TStarts == IF PickSeq = <<>> THEN UNION {InstancesOf(f) : f \in Families}
+           ELSE {MkT(PickSeq[i]) : i \in DOMAIN PickSeq}
 
 THost == {"H"}
 TIPs == 0..MaxIP
@@ -354,6 +373,7 @@ ExpectOf(i) ==
       [] i.t \in {"pool", "drain"} -> [j \in 1..m |-> <<1, Sq(j)>>] \o << <<2, SqSum(m)>> >>
       [] i.t = "privsel"  -> [x \in 1..n |-> <<x, TagSum(x, m)>>]
       [] i.t \in {"counter", "nolock"} -> << <<n * m>> >>
+      [] i.t = "earlyclose" -> <<>>
       [] i.t = "prodcons" -> << <<TagSums(n, m)>> >>
       [] i.t = "host"     -> [x \in 1..n |-> <<x, TagSum(x, m)>>] \o << <<0, TagSums(n, m)>> >>
       [] i.t = "interps"  -> [x \in 1..n |-> <<x, (m + 1) * x>>]
